@@ -323,8 +323,11 @@ Definition schema_lk (s : schema) : bytes -> option (N * N) :=
 Definition expand_level (quirk : bool) (s : schema) (its : list item) : option (list ritem) :=
   expand (schema_lk s) (load_comps (s_comps s)) FUEL quirk true [] its.
 
+(* (the field and component maps are built once for all messages) *)
 Definition expand_msgs (quirk : bool) (s : schema) : option (list (msgdef * list ritem)) :=
-  fold_right (fun m acc => match acc, expand_level quirk s (md_items m) with
+  let lk := schema_lk s in
+  let cs := load_comps (s_comps s) in
+  fold_right (fun m acc => match acc, expand lk cs FUEL quirk true [] (md_items m) with
                            | Some l, Some r => Some ((m, r) :: l)
                            | _, _ => None end) (Some []) (s_msgs s).
 
